@@ -113,14 +113,11 @@ func (v *objectValidator) feedObjectValueBegin() ([]validator, bool) {
 	}
 
 	// child node not found on schema object
-	if c := v.node_.Constraint(constraint.RequiredKeysConstraintType); c != nil {
-		key, ok := v.validateTypeRules(v.lastFoundKeyLex.Value())
+	if key, ok := v.validateTypeRules(objectNode, v.lastFoundKeyLex.Value()); ok {
+		child, ok := objectNode.ChildByRawKey([]byte(key))
 		if ok {
-			child, ok := objectNode.ChildByRawKey([]byte(key))
-			if ok {
-				delete(v.requiredKeys, key)
-				return NodeValidatorList(child, v.rootSchema, v), false
-			}
+			delete(v.requiredKeys, key)
+			return NodeValidatorList(child, v.rootSchema, v), false
 		}
 	}
 	if c := v.node_.Constraint(constraint.AdditionalPropertiesConstraintType); c != nil {
@@ -141,9 +138,15 @@ func (v objectValidator) requiredKeysString() string {
 	return strings.Join(keys, ", ")
 }
 
-// validate with rules
-func (v objectValidator) validateTypeRules(value jbytes.Bytes) (string, bool) {
-	for key := range v.requiredKeys {
+// validateTypeRules looks for a key shortcut (`@type: value`) of the object whose
+// string type accepts the given key. The shortcuts are tried in declaration order,
+// whether they are required or optional.
+func (v objectValidator) validateTypeRules(objectNode *schema.ObjectNode, value jbytes.Bytes) (string, bool) {
+	for _, k := range objectNode.Keys().Data {
+		if !k.IsShortcut {
+			continue
+		}
+		key := k.Key
 		typ, ok := v.rootSchema.TypesList()[key]
 		if !ok {
 			continue
